@@ -148,3 +148,22 @@ package preconfirmed
 //@   requires *c != nil && (*c).length >= 0
 //@   loop 1: invariant bounded_by_the_views_length: 0 <= count && count <= (*c).length && calls(yield) == old(calls(yield)) + count
 //@   ensures at_most_length_entries: calls(yield) <= old(calls(yield)) + (*c).length
+
+// ---- fetching class definitions never writes into what views hold (C20) -----------------------------
+// The class map of a stored entry is shared with every view handed out so far: the definitions for a
+// new entry are collected in a map made by this call, and what is returned is that new map - never
+// the map of the stored entry. (That no OTHER pre-existing map is written is not claimed: the loop
+// over the declared hashes is a range-over-func loop, for which the engine has no map frame.)
+//@ extern func github.com/NethermindEth/juno/sync/preconfirmed.DataSource.Class
+//@ func declaredClassCount
+//@   trusted
+//@ func declaredClassHashes
+//@   trusted
+//@ extern func github.com/NethermindEth/juno/core/felt.(*Felt).String
+//@ func (*Poller).fetchDeclaredClasses
+//@   props C20
+//@   arith int
+//@   nosafe
+//@   requires p != nil
+//@   modifies maps
+//@   ensures a_map_of_its_own: result1 == nil && result0 != nil ==> fresh(result0)
